@@ -106,8 +106,9 @@ def build(history, variant):
                 acc = {"plain": blocks.p_plain, "fn": blocks.p_fn, "uniq": blocks.p_uniq}[variant](acc, s[1])
             elif s[0] == "mag":
                 mg = {"plain": blocks.mag_plain, "fn": blocks.mag_fn, "uniq": blocks.mag_uniq}[variant]
-                r = mg(jnp.clip(acc * 4.0, -100.0, 100.0).astype(blocks.MAG_DTYPES[s[1]]))
-                acc = acc + (r[:, :4] + r[:, 4:]).astype(jnp.float32) * 0.01
+                # "f32" means the default float width (explicit float32 in a double-precision export is C09's subject, D15)
+                r = mg(jnp.clip(acc * 4.0, -100.0, 100.0).astype(acc.dtype if s[1] == "f32" else blocks.MAG_DTYPES[s[1]]))
+                acc = acc + (r[:, :4] + r[:, 4:]).astype(acc.dtype) * 0.01
             elif s[0] == "gate":
                 gt = {"plain": blocks.gate_plain, "fn": blocks.gate_fn, "uniq": blocks.gate_uniq}[variant]
                 acc = gt(acc * 0.5, double=double, shift=shift) if s[1] == "ds" else gt(acc * 0.5, shift=shift, double=double)
@@ -241,7 +242,7 @@ def check_history(history, variant, sym, acc=None):
 
 def plan(tier, seed):
     n = 16 if tier == "quick" else 48
-    return [{"kind": "hist", "shard": i, "seed": seed, "examples": 9 if tier == "quick" else 60} for i in range(n)]
+    return [{"kind": "hist", "shard": i, "seed": seed, "examples": 9 if tier == "quick" else 150} for i in range(n)]
 
 
 def work(sh):
